@@ -137,7 +137,6 @@ RBS_STRUCT = "struct rbs { uint8_t left, right, top, bottom; };\n"
 PBS_STRUCT = "struct pbs { uint8_t left, right; };\n"
 RBS_F = ["left", "right", "top", "bottom"]
 PBS_F = ["left", "right"]
-L = "NS_looped"
 
 rbs_is_hl = Unit(
     name="rbs_is_horizontal_looped", file=RG_H,
